@@ -24,6 +24,12 @@ notes = {
  'trashItemConds': "TrashItem: skip when request mtime younger than TTL; mount lookup; skip on Mtime error; skip unless stored mtime == requested (ns); BlobTrash (C04.step trashItem, tiVol)",
  'trashItemAssigns': "TrashItem: a named mount is looked up with needWrite = true (a read-only mount is never trashed on, whichever way it is read-only); otherwise AllWritable (tiSelected)",
  'trashItemCalls': "TrashItem: AllWritable or Lookup(uuid, needWrite=true); Mtime; Trash",
+ 'runTrashWorkerText': "RunTrashWorker: receive the next item, TrashItem(item), report DoneItem — one item at a time per worker (Queue: take, exec)",
+ 'replaceQueueText': "ReplaceQueue hands the new list to the manager goroutine (Queue.Ev.putTrash)",
+ 'workQueueConds': "WorkQueue manager: runs while the input is open or items are in progress; an empty list stops sending",
+ 'workQueueAssigns': "WorkQueue manager: a new list REPLACES todo (`todo = p`: the unprocessed rest of the old list is abandoned); the item offered to workers is always todo.Front() (Queue.qstep)",
+ 'workQueueCalls': "WorkQueue manager: the front item is removed from todo when a worker has received it (Queue.qstep take)",
+ 'trashHandlerCalls': "handleTrash: system token, builds a list in request order, ReplaceQueue (Queue.Ev.putTrash)",
  'deleteConds': "handleDELETE: 403 without system token, 405 when BlobTrash off, nil => copies_deleted, IsNotExist => skip, 404 when nothing found (C04.step delete)",
  'deleteCalls': "handleDELETE trashes on AllWritable only",
  'touchHandlerConds': "handleTOUCH: 401, 404 when no writable volume, first success wins, IsNotExist => 404 (C04.step touch)",
@@ -49,6 +55,7 @@ are compared with the verifPoint ids observed at run time by the correspondence 
 import ArvVerif.Gen.FactsC04
 import ArvVerif.Model.C04
 import ArvVerif.Model.C04_Race
+import ArvVerif.Model.C04_Queue
 namespace ArvVerif.Tie.C04
 open ArvVerif.Facts.C04
 
@@ -87,6 +94,12 @@ theorem tie_young (c : ArvVerif.C04.Cfg) (now m : Nat) : ArvVerif.C04.young c no
 theorem tie_sweep (c : ArvVerif.C04.Cfg) (now : Nat) (v : ArvVerif.C04.Vol) (h : ¬ c.conc < 1) :
     (v.emptyTrash c now).trash = v.trash.filter (fun e => decide (e.deadline > now / c.res)) := by
   simp [ArvVerif.C04.Vol.emptyTrash, h]
+
+/-- the queue model's replacement is `todo = p`, its hand-over removes the front item (`workQueueAssigns`, `workQueueCalls`) -/
+theorem tie_queue (q : ArvVerif.C04.Queue.QSt) (l : List ArvVerif.C04.Queue.Item) (x : ArvVerif.C04.Queue.Item) (r : List ArvVerif.C04.Queue.Item) :
+    (ArvVerif.C04.Queue.qstep q (.putTrash l)).todo = l ∧ (ArvVerif.C04.Queue.qstep q (.putTrash l)).busy = q.busy ∧
+    (ArvVerif.C04.Queue.qstep { todo := x :: r, busy := q.busy } .take).todo = r ∧
+    (ArvVerif.C04.Queue.qstep { todo := x :: r, busy := q.busy } .take).busy = q.busy ++ [x] := ⟨rfl, rfl, rfl, rfl⟩
 
 end ArvVerif.Tie.C04
 ''')
